@@ -22,16 +22,14 @@ import (
 
 // TestQUICExpectedPeer: end-to-end smoke coverage of the QUIC path (which reuses
 // libp2ptls.Identity.ConfigForPeer): full libp2p hosts over simnet's in-memory UDP, the
-// dialer asks for P at the address where Q listens. quick: 2 key-type pairs; thorough: all 16.
+// dialer asks for P at the address where Q listens; all 16 key-type pairs of (P, Q).
 func TestQUICExpectedPeer(t *testing.T) {
 	warm()
 	name := t.Name()
 	k := 0
 	for i, tp := range keys.Types {
 		for j, tq := range keys.Types {
-			if !hx.Thorough() && !((i == 0 && j == 3) || (i == 2 && j == 1)) {
-				continue
-			}
+			_, _ = i, j
 			k++
 			if !hx.Mine(k) {
 				continue
